@@ -267,6 +267,35 @@ def build_sel(sel, src, m):
         if k == "compress":
             return m.compress(mk, x, axis=ax)
         return x[(slice(None),) * ax + (mk,)]
+    if k == "mask_nd":
+        # full-rank boolean mask that carries its OWN chunking (sel["mchunks"]), independent of x's chunking
+        w = source_data({"shape": src["shape"], "mul": sel.get("wmul", 1), "off": sel.get("woff", 0), "mod": sel.get("wmod", 1 << 40)})
+        mk = sel["mkind"]
+        mc = tuple(tuple(c) for c in sel["mchunks"])
+        if m is np:
+            mask = pred(np, data if mk in ("expr", "expr_rechunk") else w, p)
+        elif mk == "np":
+            mask = pred(np, w, p)
+        elif mk == "da":
+            mask = m.from_array(pred(np, w, p), chunks=mc)
+        elif mk == "da_rechunk":
+            mask = m.from_array(pred(np, w, p), chunks=tuple(tuple(c) for c in src["chunks"])).rechunk(mc)
+        elif mk == "expr":
+            mask = pred(m, x, p)
+        elif mk == "expr_rechunk":
+            mask = pred(m, x.rechunk(mc), p)
+        elif mk == "other_expr":
+            mask = pred(m, m.from_array(w, chunks=mc), p)
+        else:
+            raise KeyError(mk)
+        form = sel.get("form", "getitem")
+        if form == "extract":
+            return m.extract(mask, x)
+        if form == "ellipsis":
+            return x[mask, ...]
+        if form == "flatnonzero":
+            return m.flatnonzero(mask)
+        return x[mask]
     if k == "unique":
         return m.unique(x)
     if k == "nonzero":
@@ -370,6 +399,37 @@ ELEMWISE_BINARY = {"add", "where_gt", "maximum"}
 ALL_OPS = {**UNARY_OPS, **OTHER_AXIS_OPS, **BINARY_OPS}
 
 
+def _dec_index(step):
+    return tuple(Ellipsis if e[0] == "e" else slice(*e[1:]) if e[0] == "s" else int(e[1]) for e in step)
+
+
+def chain_fn(case):
+    """op 'chain': chained basic indexing (case["chain"]: list of steps, a step = one entry per current axis,
+    ["s", start, stop, step] or ["i", k]) followed by the reduction case["red"] = [name, axis-or-None]."""
+    steps = [_dec_index(st) for st in case["chain"]]
+    red = case.get("red") or ["none", None]
+
+    def f(m, a, b, u, o):
+        for st in steps:
+            a = a[st]
+        name, ax = red
+        if name == "none":
+            return a
+        if name == "cumsum":
+            return m.cumsum(a, axis=ax)
+        if name == "count":
+            return (a > 2).sum(axis=ax)
+        return getattr(a, name)(axis=ax)
+
+    return f
+
+
+def op_fn(case):
+    if case["op"] == "chain":
+        return chain_fn(case)
+    return ALL_OPS[case["op"]]
+
+
 def canon(v):
     if isinstance(v, tuple):
         return np.asarray(v, dtype=float)
@@ -404,7 +464,7 @@ def eval_case(case):
     out = {}
     with warnings.catch_warnings():
         warnings.simplefilter("ignore")
-        f = ALL_OPS[case["op"]]
+        f = op_fn(case)
         u, o = case.get("u", 0), case.get("o")
         # NumPy oracle
         try:
@@ -620,12 +680,17 @@ def search(ctx):
         else:
             ctx.notes["probe_no_longer_fails." + sig] = ctx.notes.get("probe_no_longer_fails." + sig, 0) + 1
 
+    # ---- systematic streams: mask-chunking grid, chained indexing, known/unknown mixes (harness/props_ext/c28_mixed.py)
+    from harness.props_ext import c28_mixed
+
+    c28_mixed.run_streams(ctx)
+
     # ---- random search
     NSEL = ctx.scale(70, 900)
     per_sel = ctx.scale(14, 40)
     unary_names = list(UNARY_OPS)
     for isel in range(NSEL):
-        if ctx.elapsed() > ctx.scale(50, 520):
+        if ctx.elapsed() > ctx.scale(56, 520):
             ctx.notes["search_stopped_early_at_selection"] = isel
             break
         src = gen_source(rng)
@@ -825,14 +890,27 @@ def check_resolve(case):
     return out
 
 
-def minimise(case, sig):
-    """Greedy shrink of a failing case (smaller source, single chunk per axis, simpler predicate)."""
+def minimise_resolve(case, sig):
+    """minimise() for a phase 'resolve' case (judged by check_resolve)"""
     def fails(c):
+        try:
+            return any(p[0] == sig for p in check_resolve(c))
+        except Exception:
+            return False
+
+    return minimise(case, sig, fails)
+
+
+def minimise(case, sig, fails=None):
+    """Greedy shrink of a failing case (smaller source, single chunk per axis, simpler predicate)."""
+    def fails0(c):
         try:
             b = judge(c, eval_case(c))
         except Exception:
             return False
         return bool(b) and b[0] == sig
+
+    fails = fails or fails0
 
     best = case
     for _ in range(6):
@@ -855,6 +933,14 @@ def minimise(case, sig):
                 cand.pop("src_b", None)
                 if cand.get("sel", {}).get("vchunks"):
                     continue
+                if cand.get("sel", {}).get("mchunks"):
+                    sl = dict(cand["sel"])
+                    mcs = [list(c) for c in sl["mchunks"]]
+                    mcs[ax][-1] -= 1
+                    if mcs[ax][-1] == 0 and len(mcs[ax]) > 1:
+                        mcs[ax].pop()
+                    sl["mchunks"] = mcs
+                    cand["sel"] = sl
                 if fails(cand):
                     best, changed = cand, True
                     break
@@ -874,6 +960,10 @@ def describe(case):
         out.append(f"b = da.from_array(np.arange({case['known']['n']})*10, chunks={case['known']['chunks']})")
     if case["phase"] == "after":
         out.append("a.compute_chunk_sizes()" + ("; b.compute_chunk_sizes()" if case.get("sel_b") else ""))
+    if case.get("op") == "chain":
+        out.append("result = a" + "".join("[" + ", ".join("..." if e[0] == "e" else str(e[1]) if e[0] == "i" else ":".join("" if v is None else str(v) for v in e[1:]) for e in st) + "]" for st in case["chain"])
+                   + f" reduced by {case.get('red')}  [optimize-graph={case.get('opt', True)}]")
+        return "; ".join(out)
     out.append(f"result = op[{case['op']}](a{', b' if case.get('sel_b') or case.get('known') else ''}; u={case.get('u')}, o={case.get('o')})  "
                f"[optimize-graph={case.get('opt', True)}, unify-policy={case.get('policy') or 'default'}]")
     return "; ".join(out)
@@ -921,7 +1011,12 @@ def run(ctx, replay=None):
     ctx.rule = (
         "correspondence: exhaustive small layouts with nan entries x index forms / layout pairs / operand sets / (chunking, mask) pairs; "
         "search: random (source shape<=3-d, chunking, data-dependent selection kind, predicate) x follow-on op x {before, after compute_chunk_sizes} "
-        "x {optimized, unoptimized}; distinct by (op, phase, outcome, selection kind for refusals, operand kinds)"
+        "x {optimized, unoptimized}; distinct by (op, phase, outcome, selection kind for refusals, operand kinds); "
+        "systematic streams (props_ext/c28_mixed.py): full-rank mask grid = every (axes split in x) x (axes split in the mask) for 2-d and 3-d "
+        "x mask kind (dask leaf / NumPy / re-chunked / expression of x / of another array) x form; mixes = every multi-input op x every "
+        "known/unknown pattern {K,U}^2, sampled {K,U}^3, x {before, after, partially resolved}, same-shape ops with a known partner of the "
+        "true shape chunked aligned / other block count / same count mis-aligned; chains = 2-3 chained basic indexings on the known axes of an "
+        "array with an unknown axis x reduction x {before, after}"
     )
     ctx.assumptions = [
         "a refusal is any exception raised at construction or compute time while sizes are unknown",
@@ -931,13 +1026,22 @@ def run(ctx, replay=None):
     if replay is not None:
         case = replay.get("case", {}).get("case") or replay.get("case")
         ctx.count(("replay",))
+        if case.get("stream"):
+            from harness.props_ext import c28_mixed
+
+            c28_mixed.replay(ctx, case, replay.get("sig"))
+            return
         if case.get("phase") == "resolve":
             for sig, what in check_resolve(case)[:3]:
                 ctx.fail(sig, {"case": case, "what": what, "program": describe(case)}, what)
             return
         res = eval_case(case)
         bad = judge(case, res)
-        if bad:
+        if bad and case.get("op") == "chain":
+            from harness.props_ext import c28_mixed
+
+            ctx.fail(c28_mixed.classify_chain(case, bad[0]), {"case": case, "what": bad[1], "program": describe(case)}, bad[1])
+        elif bad:
             sig = classify(case, replay.get("sig") or bad[0], False)
             ctx.fail(sig, {"case": case, "what": bad[1], "program": describe(case)}, bad[1])
         return
